@@ -178,7 +178,33 @@ func c08One(ctx *Ctx, i int, rng *rand.Rand, allowStall bool) {
 	for _, p := range peered {
 		desc.Hosts[p] += ",peered"
 	}
+	// bystanders: light clients of every kind (never candidates), registered around the hosts
+	for k, b := range []string{"by0", "by1", "by2", "by3", "by4"} {
+		if rng.Intn(3) != 0 {
+			if _, err := w.connect(b, false, []string{"geth", "parity", ""}[k%3], "", ""); err != nil {
+				fatal("connect bystander: %v", err)
+			}
+		}
+	}
 	w.takeCalls()
+	var mon0 []string
+	// what the store answers to the candidate query, held against each node's own record
+	for _, qk := range []string{"", "geth", "parity"} {
+		ans, err := w.st.ActiveHosts(qk, 100)
+		if err != nil {
+			continue
+		}
+		for _, n := range ans {
+			rec, gerr := w.st.GetNode(n.ID)
+			if gerr != nil {
+				mon0 = append(mon0, fmt.Sprintf("c08-store-answer: the store lists %s as an active host of kind %q; it has no such node", shortID(string(n.ID)), qk))
+				continue
+			}
+			if !rec.IsHost || (qk != "" && rec.Kind != qk) || time.Since(rec.LastSeen) > store.ExpireInterval {
+				mon0 = append(mon0, fmt.Sprintf("c08-store-answer: the store (%s driver) lists node %s as an active host of kind %q; its own record says host=%v kind=%q last seen %s ago", driverNames[drv], shortID(string(n.ID)), qk, rec.IsHost, rec.Kind, time.Since(rec.LastSeen).Round(time.Second)))
+			}
+		}
+	}
 	// the request
 	supply := nh
 	num := []int{-3, -1, 0, 1, 2, supply, supply + 2, 3}[rng.Intn(8)]
@@ -242,7 +268,7 @@ func c08One(ctx *Ctx, i int, rng *rand.Rand, allowStall bool) {
 	took := time.Since(t0)
 	desc.TookMs = took.Milliseconds()
 	e := classify(err)
-	var mon []string
+	mon := mon0
 	if pe, ok := err.(panicErr); ok {
 		mon = append(mon, fmt.Sprintf("c08-panic: peer request for %d hosts made the handler panic: %v", num, pe.v))
 	}
@@ -413,10 +439,36 @@ func runC09(ctx *Ctx) {
 		var evs []c09Ev
 		var items []string
 		var mon []string
+		cur := map[string]int{} // connection each host most recently registered on
 		steps := 6 + rng.Intn(14)
 		for k := 0; k < steps; k++ {
-			r := rng.Intn(11)
+			r := rng.Intn(12)
 			switch {
+			case r == 11: // a goodbye (vipnode_disconnect, as pool.Remote sends it) for a host, arriving on a connection other than the one it is registered on
+				h := hosts[rng.Intn(len(hosts))]
+				var others []int
+				for j, c := range conns {
+					if c.open && j != cur[h] {
+						others = append(others, j)
+					}
+				}
+				if _, registered := cur[h]; !registered || len(others) == 0 {
+					continue
+				}
+				ci := others[rng.Intn(len(others))]
+				id := nodeIDOf(h)
+				nonce := w.nextNonce()
+				sig := w.sign(keyFor(h), "vipnode_disconnect", id, nonce)
+				before := w.pool.NumRemotes()
+				var res interface{}
+				cctx, cancel := context.WithTimeout(context.Background(), 10*time.Second)
+				err := conns[ci].hc.cliSide.Call(cctx, &res, "vipnode_disconnect", sig, id, nonce)
+				cancel()
+				nr := w.pool.NumRemotes()
+				evs = append(evs, c09Ev{Ev: "goodbye-on-other-connection", Host: h, Conn: ci, Remotes: nr})
+				if nr != before {
+					mon = append(mon, fmt.Sprintf("c09-goodbye-from-another-connection: a vipnode_disconnect for host %s arrived on connection %d; the host is registered on connection %d, which is open; registry entries %d -> %d (result %v): a host stays instructable while the connection it registered on is open", h, ci, cur[h], before, nr, err))
+				}
 			case r == 10: // a full node sends its connect over plain HTTP: there is no connection to instruct it over
 				h := hosts[rng.Intn(len(hosts))]
 				id := nodeIDOf(h)
@@ -459,6 +511,7 @@ func runC09(ctx *Ctx) {
 					fatal("host connect over conn %d: %v", ci, err)
 				}
 				nr := w.pool.NumRemotes()
+				cur[h] = ci
 				evs = append(evs, c09Ev{Ev: "register", Host: h, Conn: ci, Remotes: nr})
 				items = append(items, fmt.Sprintf("EvReg %s %s %s", cN(w.t.id(h)), cN(ci+1), cNat(nr)))
 			case r < 8: // close a connection (old or new, possibly twice)
@@ -470,6 +523,11 @@ func runC09(ctx *Ctx) {
 				c.hc.c1.Close()
 				c.hc.c2.Close()
 				c.open = false
+				for hh, cc := range cur {
+					if cc == ci {
+						delete(cur, hh)
+					}
+				}
 				w.pool.CloseRemote(c.hc.poolSide)
 				nr := w.pool.NumRemotes()
 				evs = append(evs, c09Ev{Ev: "close", Conn: ci, Remotes: nr})
@@ -503,4 +561,11 @@ func runC09(ctx *Ctx) {
 		coq := fmt.Sprintf("{| c9_evs := %s |}", cList(items))
 		ctx.Emit(Case{I: i, Kind: "registry-" + driverNames[drv], Coq: coq, Desc: map[string]interface{}{"events": evs}, Monitor: mon})
 	})
+}
+
+func shortID(id string) string {
+	if len(id) > 12 {
+		return id[:12] + "..."
+	}
+	return id
 }
